@@ -1300,7 +1300,7 @@ theorem insertJobsReject_parentsNodup {s : State} {b user : Nat} {u : Update} {b
     ∀ sp ∈ specs, (jobParents u sp).Nodup := by
   unfold insertJobsReject at h
   dsimp only at h
-  split_ifs at h with h1 h2 hany
+  split_ifs at h with h1 h2 hids hany
   · split at h <;> simp at h
   · intro sp hsp
     simp only [List.any_eq_true, not_exists, not_and, decide_eq_true_eq, Decidable.not_not] at hany
